@@ -333,7 +333,10 @@ func c07TableCase(r *Rand) string {
 func c07NumStr(r *Rand) string {
 	switch r.Intn(12) {
 	case 0:
-		return Pick(r, []string{"", "z", "1,5", "1 2", "--1", ".", "+", "1.2.3", "xyz", "-", "1-", "1e3", "inf", "0x10", "nan"})
+		if r.Chance(1, 12) { // spellings the decimal model declines (answers `unmodelled`)
+			return Pick(r, []string{"1e3", "inf", "0x10", "nan"})
+		}
+		return Pick(r, []string{"", "z", "1,5", "1 2", "--1", ".", "+", "1.2.3", "xyz", "-", "1-", "1..2", "+-1", "1 "})
 	case 1:
 		return Pick(r, []string{"0", "-0", "0.0", "+0", "1", "-1", "100", "1000000", "9007199254740993", "0.1", "0.5", "-2.25", ".5", "5.", "+.5"})
 	case 2: // repeated small values (mode, ties)
@@ -401,7 +404,7 @@ func c07SplitCase(r *Rand) string {
 func c07Gen(r *Rand, tier string) []string {
 	n := 500
 	if tier == "thorough" {
-		n = 12000
+		n = 30000
 	}
 	var out []string
 	for i := 0; i < n; i++ {
@@ -524,6 +527,19 @@ func c07Stats(cases []string) map[string]int {
 	return st
 }
 
+// c07Corpus repeats corpus/C07/*.case (past failing inputs of the defects fixed in /repo); always run first.
+var c07Corpus = []string{
+	"split 6162 31616232616233 5",
+	"agg table 3a3a s:783a3a613a3a35,s:793a3a61,s:783a3a62",
+	"agg num 1 0 31;32;33 1",
+	"agg num 1 1 35;2d31;322e35;37 1,0,0.5,0.999",
+	"agg table 20 s:312061,s:312062,t:0:.:62:1:0",
+	"agg table 00 s:7800610039323233333732303336383534373735383037",
+	"agg table 00 s:780061002d39323233333732303336383534373735383038",
+	"agg table 20 s:312061,s:322062,t:0:.:.:1:9",
+	"agg table 00 s:780061,s:790062,t:0:.:.:1:9223372036854775807,s:780061",
+}
+
 func init() {
-	Register("C07", &Prop{Gen: c07Gen, Run: c07Run, Stats: c07Stats})
+	Register("C07", &Prop{Gen: c07Gen, Run: c07Run, Stats: c07Stats, Corpus: c07Corpus})
 }
